@@ -370,6 +370,12 @@ class Stack:
         elif f == "queue_send":
             spec, dest = a
             prot.announcer.queue_send(lib_entry(spec_entry(spec)), remote=None if dest is None else PEERS[dest])
+        elif f == "send_burst":
+            specs, dest, count = a
+            ents = [lib_entry(spec_entry(x)) for x in specs]
+            remote = None if dest is None else PEERS[dest]
+            for _ in range(count):
+                prot.send_sd(ents, remote=remote)
         elif f == "send_sd":
             specs, dest = a
             prot.send_sd([lib_entry(spec_entry(s)) for s in specs], remote=None if dest is None else PEERS[dest])
